@@ -1,52 +1,12 @@
-import GdVerif.Proto.Valve
+import GdVerif.Proto.Games
 /-
   MODEL of `games/battalion1944.rs` (a Valve query with engine app 489940, default gathering and default
-  timeouts, five `bat_*` rule overrides, then `game::Response::new_from_valve_response`) and of
-  `protocols/valve/types.rs: game::{Player, Response}`.
+  timeouts, five `bat_*` rule overrides, then `game::Response::new_from_valve_response` = `Games.gameView` of
+  `Proto/Games.lean`).
 -/
 namespace Gd.Battalion
 open Gd.Valve (ServerType Rules ServerInfo mapRemove)
-
-/-- `valve::game::Player` -/
-structure Player where
-  name : Bytes
-  score : Int
-  duration : Nat
-  deriving Repr, DecidableEq
-
-/-- `valve::game::Response` -/
-structure GameResponse where
-  protocol : Nat
-  name : Bytes
-  map : Bytes
-  game : Bytes
-  appid : Nat
-  playersOnline : Nat
-  playersDetails : List Player
-  playersMaximum : Nat
-  playersBots : Nat
-  serverType : ServerType
-  hasPassword : Bool
-  vacSecured : Bool
-  version : Bytes
-  port : Option Nat
-  steamId : Option Nat
-  tvPort : Option Nat
-  tvName : Option Bytes
-  keywords : Option Bytes
-  rules : Rules
-  deriving Repr, DecidableEq
-
-/-- `game::Response::new_from_valve_response` -/
-def gameResponseOf (r : Valve.Response) : GameResponse :=
-  { protocol := r.info.protocolVersion, name := r.info.name, map := r.info.map, game := r.info.gameMode,
-    appid := r.info.appid, playersOnline := r.info.playersOnline,
-    playersDetails := (r.players.getD []).map fun p => ⟨p.name, p.score, p.duration⟩,
-    playersMaximum := r.info.playersMaximum, playersBots := r.info.playersBots, serverType := r.info.serverType,
-    hasPassword := r.info.hasPassword, vacSecured := r.info.vacSecured, version := r.info.gameVersion,
-    port := r.info.extraData.bind (·.port), steamId := r.info.extraData.bind (·.steamId),
-    tvPort := r.info.extraData.bind (·.tvPort), tvName := r.info.extraData.bind (·.tvName),
-    keywords := r.info.extraData.bind (·.keywords), rules := r.rules.getD [] }
+open Gd.Games (GameResponse gameView)
 
 def kMaxPlayers : Bytes := asciiBytes "bat_max_players_i"
 def kPlayerCount : Bytes := asciiBytes "bat_player_count_s"
@@ -96,6 +56,6 @@ def DEFAULT_PORT : Nat := 7780
 def query (ext : Valve.Ext) (port : Nat) : Q GameResponse := do
   let r ← Valve.query ext port ENGINE Valve.Gather.default 0
   let r ← Q.lift (applyOverrides r)
-  pure (gameResponseOf r)
+  pure (gameView r)
 
 end Gd.Battalion
